@@ -31,7 +31,7 @@ def npmEco : Eco where
     | none => false
   anchorBelow s l :=
     match Npm.parseSpec s, parseStrict l with
-    | some sp, some lv => (match Npm.baseVersion sp with | some b => lt b lv | none => false)
+    | some sp, some lv => (match Npm.baseVersion sp with | some b => plt b lv | none => false)
     | _, _ => false
 
 theorem npm_laws : MatcherLaws Npm.matcher npmEco where
@@ -139,7 +139,7 @@ def cratesEco : Eco where
     | none => false
   anchorBelow s l :=
     match Crates.parseSpec s, parseStrict l with
-    | some sp, some lv => (match Crates.baseVersion sp with | some b => lt b lv | none => false)
+    | some sp, some lv => (match Crates.baseVersion sp with | some b => plt b lv | none => false)
     | _, _ => false
 
 theorem crates_laws : MatcherLaws Crates.matcher cratesEco where
@@ -271,9 +271,11 @@ theorem c02_npm_deviation_stacked_caret :
     npmVerdict "^^1.2.3".toList "1.2.3".toList = some true ∧ refNpm "^^1.2.3".toList "1.2.3".toList = none := by decide
 theorem c02_npm_deviation_stacked_v :
     npmVerdict "vv1.2.3".toList "1.2.3".toList = some true ∧ refNpm "vv1.2.3".toList "1.2.3".toList = none := by decide
-/-! F-C02-6: build metadata takes part in comparisons (SemVer precedence ignores it) -/
-theorem c02_npm_deviation_build :
-    npmVerdict "1.2.3".toList "1.2.3+b".toList = some false ∧ refNpm "1.2.3".toList "1.2.3+b".toList = some true := by decide
+/-! F-C02-6 (repaired): build metadata takes no part in comparisons — the general statement is `c02_npm_ast` /
+    `c02_crates_ast` (Props/C02Ast*.lean), which no longer carry a build-metadata hypothesis -/
+theorem c02_npm_build_ignored :
+    npmVerdict "1.2.3".toList "1.2.3+b".toList = some true ∧ refNpm "1.2.3".toList "1.2.3+b".toList = some true ∧
+    npmVerdict "<=1.2.3".toList "1.2.3+b".toList = some true ∧ cratesVerdict "=1.2.3".toList "1.2.3+b".toList = some true := by decide
 /-! F-C02-4: crates, same root cause -/
 theorem c02_crates_deviation_tilde_major :
     cratesVerdict "~1".toList "1.5.0".toList = some false ∧ refCrates "~1".toList "1.5.0".toList = some true := by decide
